@@ -384,6 +384,7 @@ type CaseResult struct {
 	Viol    []sim.Violation
 	Infra   string
 	Hung    string
+	Void    string // the store implementation panicked (unistore substrate defect): the case says nothing
 	Backend sim.Backend
 	Batch1  bool
 	NStores int
@@ -411,6 +412,7 @@ func Run(backend sim.Backend, nStores int, batch1 bool, conc1 bool, keys, splits
 		return
 	}
 	defer cl.Close()
+	defer func() { res.Void = cl.StorePanic() }()
 	for _, k := range splits {
 		cl.SplitAt(k)
 	}
